@@ -77,6 +77,28 @@ func init() {
 			e.envState["clock"] = t
 			return nil
 		},
+		zzPath + ".Go":          inZZGo,
+		zzPath + ".WaitThreads": inZZWaitThreads,
+		zzPath + ".Settle":      inZZSettle,
+		zzPath + ".Yield":       inZZYield,
+		"time.NewTicker": func(e *Exec, fn *ssa.Function, a []Value) Value {
+			// a ticker that never fires within the explored window
+			c := e.newCell(fn.Signature.Results().At(0).Type().(*types.Pointer).Elem())
+			e.cellID++
+			c.Fields[0].V = &ChanObj{T: c.Fields[0].Typ.Underlying().(*types.Chan), Cap: 1, id: e.cellID}
+			return c
+		},
+		"time.NewTimer": func(e *Exec, fn *ssa.Function, a []Value) Value {
+			// a timer that has already fired (sleeping is a no-op)
+			c := e.newCell(fn.Signature.Results().At(0).Type().(*types.Pointer).Elem())
+			e.cellID++
+			ch := &ChanObj{T: c.Fields[0].Typ.Underlying().(*types.Chan), Cap: 1, id: e.cellID}
+			ch.Buf = append(ch.Buf, mkTime(e, e.ts.Const(64, 0)))
+			c.Fields[0].V = ch
+			return c
+		},
+		"(*time.Ticker).Stop": func(e *Exec, fn *ssa.Function, a []Value) Value { return nil },
+		"(*time.Timer).Stop":  func(e *Exec, fn *ssa.Function, a []Value) Value { return e.ts.True },
 		zzPath + ".IsConcrete": func(e *Exec, fn *ssa.Function, a []Value) Value {
 			t, ok := a[0].(*Term)
 			return e.ts.Bool(ok && t.IsConst())
